@@ -342,10 +342,16 @@ pub fn item_comment_prog(run: &Run, src: &mut Src, depth: usize) -> Option<Prog>
 			n += 1;
 			let indent: String = line.chars().take_while(|c| *c == ' ' || *c == '\t').collect();
 			let w = format!("c{n} note");
-			let c = match src.below(3) {
-				0 => format!("// {w}"),
-				1 => format!("# {w}"),
-				_ => format!("/* {w} */"),
+			let c = match src.below(9) {
+				0 | 1 => format!("// {w}"),
+				2 => format!("# {w}"),
+				3 => format!("/* {w} */"),
+				// comment texts that begin or end with further copies of their own marker
+				4 => format!("## {w}"),
+				5 => format!("//// {w} ////"),
+				6 => format!("/// {w}"),
+				7 => format!("#{w}#"),
+				_ => format!("//{w}"),
 			};
 			out.push_str(&indent);
 			out.push_str(&c);
@@ -421,6 +427,27 @@ pub fn inline_comment_prog(run: &Run, src: &mut Src, depth: usize) -> Option<Pro
 	Some(Prog { tree: base.tree, text: out, comments, decorated: true, anywhere: false })
 }
 
+/// A generated program (no comments) whose tokens are separated by a drawn mixture of blanks, line feeds and *empty
+/// lines* — also directly inside brackets of empty arrays / objects / argument lists.
+pub fn blank_line_prog(run: &Run, src: &mut Src, depth: usize) -> Prog {
+	let base = gen_prog(run, src, depth, 0);
+	let toks = c06::lex_tokens(&base.text);
+	let mut out = String::new();
+	for (i, t) in toks.iter().enumerate() {
+		if i > 0 {
+			out.push_str(match src.weighted(&[6, 2, 2, 1]) {
+				0 => " ",
+				1 => "\n",
+				2 => "\n\n",
+				_ => "\n\n\n",
+			});
+		}
+		out.push_str(&t.1);
+	}
+	out.push('\n');
+	Prog { tree: base.tree, text: out, comments: vec![], decorated: false, anywhere: false }
+}
+
 /// payloads of the comments of a text, in order (delimiters stripped, white space collapsed)
 pub fn comment_payloads(text: &str) -> Vec<String> {
 	use jrsonnet_lexer::SyntaxKind::*;
@@ -428,9 +455,13 @@ pub fn comment_payloads(text: &str) -> Vec<String> {
 	for l in jrsonnet_lexer::Lexer::new(text) {
 		let t = l.text;
 		let payload = match l.kind {
-			SINGLE_LINE_SLASH_COMMENT => t.trim_start_matches('/'),
-			SINGLE_LINE_HASH_COMMENT => t.trim_start_matches('#'),
-			MULTI_LINE_COMMENT => t.trim_start_matches("/*").trim_end_matches("*/"),
+			// exactly the delimiter is stripped: `## heading`, `//// banner ////` keep the rest of their markers as text
+			SINGLE_LINE_SLASH_COMMENT => t.strip_prefix("//").unwrap_or(t),
+			SINGLE_LINE_HASH_COMMENT => t.strip_prefix('#').unwrap_or(t),
+			MULTI_LINE_COMMENT => {
+				let b = t.strip_prefix("/*").unwrap_or(t);
+				b.strip_suffix("*/").unwrap_or(b)
+			}
 			_ => continue,
 		};
 		let words: Vec<&str> = payload.split_whitespace().filter(|w| !w.chars().all(|c| c == '*')).collect();
@@ -751,6 +782,7 @@ pub fn run_c20(run: &Run) {
 	let n = run.tier.pick(60_000, 600_000);
 	run.explore("fixpoint-plain", n, 10..=250, |src| fixpoint_case(run, &gen_prog(run, src, 4, 0)));
 	run.explore("fixpoint-decorated", n, 10..=250, |src| fixpoint_case(run, &gen_prog(run, src, 4, 1)));
+	run.explore("fixpoint-blank-lines", n, 10..=250, |src| fixpoint_case(run, &blank_line_prog(run, src, 4)).class("blank-lines"));
 	run.explore("fixpoint-item-comments", n, 10..=250, |src| match item_comment_prog(run, src, 4) {
 		Some(p) => fixpoint_case(run, &p).class("item-comments"),
 		None => CaseOut::discard(String::new(), "no multi-line group to decorate"),
@@ -844,6 +876,7 @@ const C20_REGRESSIONS: &[&str] = &[];
 pub fn replay(run: &Run, prop: &str, stage: &str, tape: Option<&[u16]>, v: &serde_json::Value) -> Option<CaseOut> {
 	match (prop, stage, tape) {
 		("C20", "fixpoint-plain", Some(t)) => Some(fixpoint_case(run, &gen_prog(run, &mut Src::new(t), 4, 0))),
+		("C20", "fixpoint-blank-lines", Some(t)) => Some(fixpoint_case(run, &blank_line_prog(run, &mut Src::new(t), 4))),
 		("C20", "fixpoint-item-comments", Some(t)) => item_comment_prog(run, &mut Src::new(t), 4).map(|p| fixpoint_case(run, &p)),
 		("C20", "fixpoint-decorated", Some(t)) => Some(fixpoint_case(run, &gen_prog(run, &mut Src::new(t), 4, 1))),
 		("C20", "fixpoint-inline-comments", Some(t)) => inline_comment_prog(run, &mut Src::new(t), 4).map(|p| fixpoint_case(run, &p)),
